@@ -17,6 +17,12 @@ from ..lockernel import blocks_of, is_empty_obj, run, strands
 from .c05 import GENOME, _report, _runner, bases
 from .c08 import plain
 
+def _stable(x):
+    # process-independent selector (the builtin hash of strings changes from run to run)
+    import zlib
+    return zlib.crc32(repr(x).encode())
+
+
 EXPLANATION = (
     "RK: query_by_position (all flag combinations; ranges at member bounds, at 0, at the collection bounds and across "
     "128 kb bin boundaries), query_by_guids / query_by_interval_guids / query_by_transcript_interval_guids / "
@@ -46,7 +52,9 @@ BIG = dict(
 )
 SMALL = dict(
     genes=[dict(id="s1", txs=[dict(exons=[(4, 10), (14, 20)], strand="PLUS", cds=[(6, 10), (14, 16)])]),
-           dict(id="s2", txs=[dict(exons=[(22, 30)], strand="MINUS", cds=None), dict(exons=[(24, 28)], strand="MINUS", cds=[(24, 27)])])],
+           dict(id="s2", txs=[dict(exons=[(22, 30)], strand="MINUS", cds=None), dict(exons=[(24, 28)], strand="MINUS", cds=[(24, 27)])]),
+           # reaches the last base of the chunk [2,40)
+           dict(id="s3", txs=[dict(exons=[(33, 35), (37, 40)], strand="PLUS", cds=None)])],
     fcs=[dict(id="sf", feats=[dict(blocks=[(12, 18), (31, 36)], strand="MINUS")])],
     vcs=[dict(id="sv", variants=[(37, 38, "T"), (38, 39, "G")])],
 )
@@ -183,9 +191,8 @@ def _pos_case(repo, it, S, spec):
                         out.append(("members retained", f"{desc}: member {oid} changed its dictionary form (coordinates / identifiers) in the result", f.qual))
                 if which != "big":
                     # member sequences = source sequences restricted to the new bounds (and to the chunk that carries sequence)
-                    for g in v.fields["genes"]:
-                        for tx in g.fields["transcripts"]:
-                            loc = tx.fields["_location"]
+                    for g in v.fields["genes"] + v.fields["feature_collections"]:
+                        for tx in g.fields.get("transcripts") or g.fields["feature_intervals"]:
                             exons = list(zip(tx.fields["_genomic_starts"], tx.fields["_genomic_ends"]))
                             sn = tx.fields["_strand"].name
                             from .c01 import enum_positions
@@ -196,7 +203,7 @@ def _pos_case(repo, it, S, spec):
                             k2, sv = run(it, repo.fn("gene.interval:AbstractFeatureInterval.get_spliced_sequence"), [], {}, tx)
                             wseq = bases(inside, sn)
                             if k2 != "ok" or sv.fields["sequence"] != wseq:
-                                out.append(("member sequence", f"{desc}: transcript {tx.fields['transcript_id']} in the result has sequence "
+                                out.append(("member sequence", f"{desc}: interval {tx.fields.get('transcript_id') or tx.fields.get('feature_name')} in the result has sequence "
                                             f"{sv.fields['sequence'] if k2 == 'ok' else sv!r}; the source restricted to [{wa},{wb}) is {wseq!r}", f.qual))
     return n, out
 
@@ -242,7 +249,7 @@ def _id_case(repo, it, S, spec):
             f = repo.fn(f"{AC}.{fname}")
             for r_ in (1, 2, 3):
                 for sub in itertools.combinations(names, r_):
-                    if r_ == 3 and hash(sub) % 5:
+                    if r_ == 3 and _stable(sub) % 5:
                         continue
                     n += 1
                     arg = [allg[i][1] for i in sub] + [stranger]
@@ -301,7 +308,7 @@ def rx_index_path(ctx):
         for b in cuts[i:]:
             if ctx.thorough or (i + cuts.index(b)) % 3 == 0 or a == 0 or b == 300000:
                 specs.append(("big", (0, 300000), a, b))
-    scuts = [0, 3, 4, 10, 12, 18, 20, 22, 24, 30, 31, 36, 40, len(GENOME)]
+    scuts = [0, 3, 4, 10, 12, 18, 20, 22, 24, 30, 31, 36, 40, 41, len(GENOME)]
     for i, a in enumerate(scuts):
         for b in scuts[i:]:
             if ctx.thorough or (i + scuts.index(b)) % 2 == 0:
@@ -326,7 +333,7 @@ def rk_position(ctx):
                     specs.append(("big", bounds, a, b))
         specs += [("big", bounds, None, None), ("big", bounds, None, 131072), ("big", bounds, 131072, None),
                   ("big", bounds, -1, 10), ("big", bounds, 5000, 4000)]
-    scuts = [0, 3, 4, 10, 12, 18, 20, 22, 24, 30, 31, 36, 40, len(GENOME)]
+    scuts = [0, 3, 4, 10, 12, 18, 20, 22, 24, 30, 31, 36, 40, 41, len(GENOME)]
     for i, a in enumerate(scuts):
         for b in scuts[i:]:
             specs.append(("small", None, a, b))
